@@ -261,10 +261,18 @@ def enabled_transitions(model, sys_, inplace_left):
 
 def replay(model, pool, seed, history):
     sys_ = model.pools[pool](seed)
-    for tr in history:
+    sys_.fresh_ids = None
+    for n_, tr in enumerate(history):
+        if n_ == len(history) - 1:
+            keep_alive = list(sys_.objs)
+            before = {id(o) for o in keep_alive}
+            tgt_obj = sys_.objs[tr[1][model.ops[tr[0]].target]] if model.ops[tr[0]].target is not None else None
         fails, _ = apply_transition(model, sys_, tr, check=False)
         if fails:
             raise RuntimeError('replay diverged: %s' % (fails,))
+        if n_ == len(history) - 1:
+            # objects created or (documented target) modified by the LAST transition of the history
+            sys_.fresh_ids = {id(o) for o in sys_.objs if id(o) not in before} | ({id(tgt_obj)} if tgt_obj is not None else set())
     # shadows := current values (every prefix was verified when it was first generated)
     for i in range(len(sys_.objs)):
         sys_.refresh(i)
@@ -276,6 +284,8 @@ _MODEL = None
 
 def _expand(args):
     pool, seed, history, inplace_used, bound_inplace, last_level, only_inplace = args
+    fresh_only = only_inplace == 'fresh'
+    only_inplace = only_inplace is True
     model = _MODEL
     out = {'succ': [], 'fails': [], 'transitions': 0, 'replays': 0, 'raised': 0}
     sys_ = replay(model, pool, seed, history); out['replays'] += 1
@@ -285,6 +295,18 @@ def _expand(args):
         # (an in-place call whose footprint is private cannot change any other object)
         shared = shared_slots(sys_)
         trs = [tr for tr in trs if model.ops[tr[0]].inplace and tr[1][model.ops[tr[0]].target] in shared]
+    if fresh_only and sys_.fresh_ids is not None:
+        # last level, reduced (sleep-set style): a transition all of whose operands were neither created nor modified by the
+        # last transition of the history, and share no buffer with such an object, was already executed with identical
+        # operands from the parent state; only transitions that touch the fresh part of the state are new
+        fresh = {i for i, o in enumerate(sys_.objs) if id(o) in sys_.fresh_ids}
+        grow = True
+        while grow:
+            grow = False
+            for i in range(len(sys_.objs)):
+                if i not in fresh and any(a is b or np.may_share_memory(a, b) for j in fresh for a in sys_.objs[i].cores for b in sys_.objs[j].cores):
+                    fresh.add(i); grow = True
+        trs = [tr for tr in trs if any(s_ in fresh for s_ in tr[1])]
     dirty = False
     for tr in trs:
         op = model.ops[tr[0]]
